@@ -1,4 +1,5 @@
 pub mod engines;
+pub mod isolate;
 pub mod lang;
 pub mod par;
 pub mod report;
